@@ -1,6 +1,6 @@
 (* Lemmas about model/M_Gates.v (property C24).  Everything is by case analysis: the programs are
    concrete, the inputs are finite sums except identities / claims, which are carried along untouched. *)
-From Coq Require Import List NArith Bool.
+From Coq Require Import List NArith Bool Lia.
 From VGI Require Import M_Gates.
 Import ListNotations.
 Open Scope N_scope.
@@ -224,4 +224,109 @@ Lemma chain_required_gate_anywhere : forall pre h a rest codes log,
 Proof.
   intros pre h a rest codes log Hh Hpre.
   rewrite (ra_require_unproven h (Some a) Hh). apply chain_go_gate_failure. exact Hpre.
+Qed.
+
+(* ------------------------------------------------------------------ histories on one gate: the replay cache *)
+Open Scope nat_scope.
+Lemma nonce_seen_In : forall n c, nonce_seen n c = true <-> In n c.
+Proof.
+  intros n c. unfold nonce_seen. rewrite existsb_exists. split.
+  - intros [x [Hin Hx]]. apply N.eqb_eq in Hx. subst. exact Hin.
+  - intros Hin. exists n. split; [exact Hin | apply N.eqb_refl].
+Qed.
+
+(* a refused presentation leaves no trace *)
+Lemma hist_step_refused_no_trace : forall cap m c h n,
+  hdr_verifies h = false -> hist_step cap m c (h, n) = (proof_gate m h, c).
+Proof. intros cap m c h n H. unfold hist_step. simpl. rewrite H. reflexivity. Qed.
+
+(* a replay leaves no trace either, and is answered as `replayed` *)
+Lemma hist_step_replay : forall cap m c h n,
+  hdr_verifies h = true -> In n c ->
+  hist_step cap m c (h, n) = (proof_gate m (HToken (Some RReplayed)), c).
+Proof.
+  intros cap m c h n H Hin. unfold hist_step, check_and_add. simpl. rewrite H.
+  apply nonce_seen_In in Hin. rewrite Hin. reflexivity.
+Qed.
+
+Definition verifying (ps : list (hdr * N)) : nat := length (filter (fun p => hdr_verifies (fst p)) ps).
+
+(* a remembered nonce with fewer than cap-1 entries behind it survives any traffic that contains at most
+   that many further verifying presentations *)
+Lemma hist_run_keeps : forall cap m n ps pre post,
+  length post + verifying ps + 1 <= cap ->
+  In n (snd (hist_run cap m (pre ++ n :: post) ps)).
+Proof.
+  intros cap m n ps. induction ps as [|[h k] r IH]; intros pre post Hle.
+  - simpl. apply in_or_app. right. left. reflexivity.
+  - cbn [hist_run fst snd].
+    unfold verifying in Hle. cbn [filter fst] in Hle.
+    unfold hist_step, check_and_add. cbn [fst snd].
+    destruct (hdr_verifies h) eqn:Hv.
+    + cbn [length] in Hle.
+      destruct (nonce_seen k (pre ++ n :: post)) eqn:Hs; cbn [fst snd].
+      * apply IH. unfold verifying. lia.
+      * assert (Hsk : skipn (length (pre ++ n :: post) + 1 - cap) (pre ++ n :: post)
+                      = skipn (length (pre ++ n :: post) + 1 - cap) pre ++ n :: post).
+        { rewrite skipn_app.
+          replace (length (pre ++ n :: post) + 1 - cap - length pre) with 0
+            by (rewrite app_length; cbn [length]; lia).
+          reflexivity. }
+        rewrite Hsk. rewrite <- app_assoc. cbn [app].
+        change (n :: post ++ [k]) with (n :: (post ++ [k])).
+        apply IH. rewrite app_length. cbn [length]. unfold verifying. lia.
+    + cbn [fst snd]. apply IH. unfold verifying. lia.
+Qed.
+
+Lemma hist_run_app : forall cap m c ps qs,
+  hist_run cap m c (ps ++ qs) =
+  (fst (hist_run cap m c ps) ++ fst (hist_run cap m (snd (hist_run cap m c ps)) qs),
+   snd (hist_run cap m (snd (hist_run cap m c ps)) qs)).
+Proof.
+  intros cap m c ps. revert c. induction ps as [|p r IH]; intros c qs.
+  - simpl. destruct (hist_run cap m c qs); reflexivity.
+  - cbn [app hist_run]. rewrite IH. reflexivity.
+Qed.
+
+(* P (nonce n, verifies, not yet seen) is presented and accepted; then any traffic in which at most cap-1
+   presentations verify -- refused ones are unlimited and may carry any nonces; then P again: the first answer
+   is the accepting one, the last answer is `replayed` *)
+Lemma hist_replay_detected : forall cap m c n h1 h2 noise,
+  hdr_verifies h1 = true -> hdr_verifies h2 = true -> ~ In n c ->
+  verifying noise + 1 <= cap ->
+  exists mid c',
+    hist_run cap m c ((h1, n) :: noise ++ [(h2, n)]) =
+    (proof_gate m (HToken None) :: mid ++ [proof_gate m (HToken (Some RReplayed))], c').
+Proof.
+  intros cap m c n h1 h2 noise H1 H2 Hfresh Hle.
+  assert (Hs : nonce_seen n c = false).
+  { destruct (nonce_seen n c) eqn:E; [|reflexivity]. apply nonce_seen_In in E. contradiction. }
+  cbn [hist_run]. unfold hist_step at 1 2. cbn [fst snd]. rewrite H1.
+  unfold check_and_add. rewrite Hs. cbn [fst snd].
+  rewrite hist_run_app. cbn [fst snd].
+  set (c1 := skipn (length c + 1 - cap) c ++ [n]).
+  assert (Hkeep : In n (snd (hist_run cap m c1 noise))).
+  { unfold c1. apply hist_run_keeps. cbn [length]. lia. }
+  eexists. eexists. cbn [hist_run]. rewrite (hist_step_replay cap m _ h2 n H2 Hkeep). cbn [fst snd].
+  reflexivity.
+Qed.
+
+(* "a refused request leaves no trace": deleting the refused presentations from a history changes neither the
+   answers to the remaining ones nor the final cache *)
+Definition kept (ps : list (hdr * N)) : list (hdr * N) := filter (fun p => hdr_verifies (fst p)) ps.
+Fixpoint kept_answers (ps : list (hdr * N)) (gs : list gres) : list gres :=
+  match ps, gs with
+  | p :: r, g :: t => if hdr_verifies (fst p) then g :: kept_answers r t else kept_answers r t
+  | _, _ => []
+  end.
+
+Lemma hist_refused_leave_no_trace : forall cap m ps c,
+  hist_run cap m c (kept ps) = (kept_answers ps (fst (hist_run cap m c ps)), snd (hist_run cap m c ps)).
+Proof.
+  intros cap m ps. induction ps as [|[h n] r IH]; intros c.
+  - reflexivity.
+  - cbn [kept filter fst]. destruct (hdr_verifies h) eqn:Hv.
+    + cbn [hist_run kept_answers fst snd]. rewrite Hv. fold (kept r). rewrite IH. reflexivity.
+    + fold (kept r). cbn [hist_run kept_answers fst snd]. rewrite Hv.
+      rewrite (hist_step_refused_no_trace cap m c h n Hv). cbn [fst snd]. apply IH.
 Qed.
